@@ -7,6 +7,21 @@ import re
 
 HERE = os.path.dirname(os.path.dirname(os.path.abspath(__file__)))
 REMARKS = {
+ 'C19_j1': 'first run: MISSED (no allocation failures inside print-buffer operations); C19 now injects a failing allocation into 15% of the operations of a third of its histories: the operation must fail with the buffer byte-identical and still terminated',
+ 'C10_j1': 'first run: MISSED (string nodes always came from json_object_new_string); 40% of C10 string nodes now receive their text through set_string[_len] on an existing node (grown / shrunk / inline / separately allocated)',
+ 'C10_j2': 'first run: MISSED (no decimal texts in the subnormal band); numeric strings now cover every exponent decade incl. 1e-308..5e-324, the overflow band and %.17g of random doubles (refnum models strtod inf/nan)',
+ 'C11_j2': 'first run: MISSED (strings stayed below 64 KiB); pattern-generated strings of 64 KiB..3 MB (SSTRP/GSTRC) with a third of the sets failing by injected fault',
+ 'C14_j2': 'first run: MISSED (custom formats had no width/flags/literal text); formats are now drawn from the printf grammar at large',
+ 'C17_j1': 'first run: MISSED (trees at most ~40 deep and only 8% of them); 6% of C17 trees are now wrapped in 30..150 levels (arrays / objects / mixed, siblings before and after the nested child)',
+ 'C17_j2': 'first run: MISSED, same strengthening as C17_j1',
+ 'C16_j1': 'first run: missed by C16 (one-shot parses only), caught by C03; half of the C16 variants are now also fed to a strict tokener in 1-7 byte chunks',
+ 'C16_j2': 'first run: MISSED by C16, C01, C03 (VT/FF never in whitespace positions); trailing bytes now include VT, FF and a random byte',
+ 'C20_j1': 'first run: missed by C20 and C08 (a lost read block always broke the syntax); C08 got an fd workload of 8-byte records aligned to the read size, so that a dropped block leaves a well-formed but different array',
+ 'C20_j2': 'first run: MISSED (the file was only read back through json_object_from_file, over a fresh path); FDF now writes over an existing shorter/longer file and compares the raw bytes with the serialization',
+ 'C15_j1': 'first run: missed by C15 (one document per tokener), caught by C04; C15 now runs 2-4 documents through one tokener per depth limit with reset always / after errors, each compared with a fresh tokener and the token-scan oracle',
+ 'C15_j2': 'first run: MISSED (json_tokener_parse_verbose never given malformed bracket-heavy input); PV vs default-tokener differential on random bracket strings and truncated nests',
+ 'C05_j1': 'first run: missed by C05, C08, C13 (no patch workload moved a member whose name needs unescaping); C08 patch workloads now move/copy/remove members named x/y, t~u, v/w',
+ 'C05_j2': 'first run: MISSED (no node ever had more than a few hundred owners); C05 now runs one node through 65537, 2^24+1 and 2^31+1 owners (GETN/PUTN)',
  'C09_h2': 'first run: MISSED (every compared tree was freshly built, so table sizes always matched); a quarter of the C09 triples/copies now grow one container by 1..180 fillers and shrink it back before comparing',
  'C13_h2': 'first run: MISSED (member names came from a fixed pool of short names); C13 and C12 now add names whose escaped length sits on / next to powers of two (8..300) to the per-document pool',
  'C02_h2': 'first run: MISSED (no long runs of bytes that all need escaping); the tree generator now emits strings made only of such bytes, 10..130 long',
